@@ -1,4 +1,4 @@
-CONSTANTS B = 4  MAXB = 8  CursorRule = "terminator"  MaxFrames = 2  MaxBody = 2  MaxExtra = 1
+CONSTANTS B = 4  MAXB = 12  CursorRule = "terminator"  MaxFrames = 2  MaxBody = 2  MaxExtra = 1
           MaxCancels = 0  MaxHist = 14
 SPECIFICATION HSpec
 INVARIANT Export
